@@ -384,6 +384,9 @@ class SED(object):
 
         # Work on a floating-point copy (the maximum would be truncated when
         # written into an integer array, and the caller's array is left alone)
+        # (bare numbers are in AU)
+        if isinstance(apertures, u.Quantity):
+            apertures = apertures.to(u.au).value
         apertures = np.array(apertures, dtype=float)
 
         # If any apertures are larger than the defined max, reset to max
